@@ -13,11 +13,14 @@ for d in sorted(glob.glob(os.path.join(V, 'seeded', '*', 'meta.json'))):
         obs = [l.split(' refuted')[0].replace('obligation ', '') for l in c['lines'] if l.startswith('obligation')]
         verdict = {0: 'MISSED (exit 0)', 1: 'caught', 2: 'undecided (exit 2)'}.get(c['exit'], str(c['exit']))
         outs.append(f"{pid}: {verdict}" + (f" — {', '.join(obs[:3])}" if obs else '') + (f" — {c['undecided'][0][21:140]}" if c['exit'] == 2 and c['undecided'] else ''))
+    if r.get('applied') is False:
+        outs = ['patch no longer applies to /repo HEAD (the code it changed was repaired); see the port with the suffix b']
     rows.append((m['id'], ', '.join(m['properties']), m['needs'], 'yes' if conf else ('no' if conf is False else '?'), '<br>'.join(outs)))
 with open(os.path.join(V, 'seeded', 'INDEX.md'), 'w') as f:
     f.write('# Seeded property-breaking changes\n\nEach directory holds `patch.diff`, the demonstration, the author\'s notes, `meta.json` (what it needs to manifest, my confirmation run) and `result.json` (what the registered checks said, quick tier, on a scratch copy with the patch applied).\n\n')
     f.write('| id | breaks | needs | confirmed (suite passes, demo fails with / passes without) | registered checks |\n|---|---|---|---|---|\n')
     for r in rows:
         f.write('| ' + ' | '.join(r) + ' |\n')
-caught = sum(1 for r in rows if 'caught' in r[4]); missed = sum(1 for r in rows if 'MISSED' in r[4] and 'caught' not in r[4]); und = len(rows) - caught - missed
-print(f'{len(rows)} seeded changes: {caught} caught, {und} undecided only, {missed} missed')
+stale = sum(1 for r in rows if 'no longer applies' in r[4])
+caught = sum(1 for r in rows if 'caught' in r[4]); missed = sum(1 for r in rows if 'MISSED' in r[4] and 'caught' not in r[4]); und = len(rows) - caught - missed - stale
+print(f'{len(rows)} seeded changes: {caught} caught, {und} undecided only, {missed} missed, {stale} superseded')
